@@ -20,7 +20,6 @@ use syn::*;
 #[derive(Debug, Clone)]
 pub enum TErr {
     NeedMonad,
-    NeedWrap,
     Unsupported(String),
 }
 pub type R = std::result::Result<String, TErr>;
@@ -72,7 +71,6 @@ pub struct Ctx<'a> {
     names: BTreeMap<String, usize>,
     ret: Ty,
     wrap: bool,
-    saw_early: bool,
 }
 
 pub struct Out {
@@ -81,10 +79,11 @@ pub struct Out {
 }
 
 pub fn translate(spec: &Spec, f_sig: &Signature, body: &Block, sigs: &BTreeMap<String, Sig>) -> std::result::Result<Out, TErr> {
-    for (monadic, wrap) in [(false, false), (false, true), (true, false), (true, true)] {
+    // "locals" kernels always yield an option: None = the function returned before the locals existed
+    let wrap = spec.locals.is_some();
+    for monadic in [false, true] {
         match translate_mode(spec, f_sig, body, sigs, monadic, wrap) {
             Err(TErr::NeedMonad) => continue,
-            Err(TErr::NeedWrap) => continue,
             r => return r,
         }
     }
@@ -96,7 +95,7 @@ fn translate_mode(spec: &Spec, f_sig: &Signature, body: &Block, sigs: &BTreeMap<
         ReturnType::Default => Ty::Unit,
         ReturnType::Type(_, t) => spec.ty_of(t),
     };
-    let mut c = Ctx { spec, sigs, monadic, env: vec![], names: BTreeMap::new(), ret: ret.clone(), wrap, saw_early: false };
+    let mut c = Ctx { spec, sigs, monadic, env: vec![], names: BTreeMap::new(), ret: ret.clone(), wrap };
     let mut binders: Vec<String> = vec![];
     if spec.fns.iter().any(|f| f.coq_ty.ends_with("-> R")) {
         // the result type of an opaque callee is abstract
@@ -181,12 +180,6 @@ fn translate_mode(spec: &Spec, f_sig: &Signature, body: &Block, sigs: &BTreeMap<
     } else {
         c.stmts(&stmts, fin)?
     };
-    if c.saw_early && !wrap {
-        return Err(TErr::NeedWrap);
-    }
-    if wrap && !c.saw_early {
-        return Err(TErr::NeedMonad); // (false,true) without early return: go on to the monadic attempts
-    }
     let def = format!("Definition {} {} :=\n{}.", spec.name, binders.join(" "), term);
     let sig = Sig {
         coq: spec.name.to_string(),
@@ -248,8 +241,7 @@ impl<'a> Ctx<'a> {
     /// value of the function (tail expression or `return e`)
     fn finish(&mut self, tm: Tm) -> R {
         if self.spec.locals.is_some() {
-            // `return;` before the requested locals exist: the kernel's value becomes an option
-            self.saw_early = true;
+            // `return ..;` before the requested locals exist
             return Ok(if self.monadic { "Val None".into() } else { "None".into() });
         }
         if !self.spec.effects.is_empty() {
@@ -530,6 +522,8 @@ impl<'a> Ctx<'a> {
             Expr::Block(b) => self.block(&b.block, k),
             Expr::Unsafe(b) => self.block(&b.block, k),
             Expr::Return(r) => match &r.expr {
+                // a "locals" kernel only records THAT the function returned early, not what
+                Some(_) if self.spec.locals.is_some() => self.finish(Tm::unit()),
                 Some(e) => self.expr(e, &|c, tm| c.finish(tm)),
                 None => self.finish(Tm::unit()),
             },
